@@ -343,6 +343,29 @@ def arith(op, a, b, on_check, on_assume=None):
     if op == "+" and isinstance(a.kind, KStr) and isinstance(b.kind, KStr):
         from . import strings
         return strings.concat(a, b)
+    if isinstance(a.kind, KComplex) or isinstance(b.kind, KComplex):
+        if isinstance(a.kind, KArr2) or isinstance(b.kind, KArr2):
+            arr, c = (a, b) if isinstance(a.kind, KArr2) else (b, a)
+            if op == "*" and isinstance(arr.kind.elem, (KFloat, KReal)):
+                i, j = z3.Int(uid("ci")), z3.Int(uid("cj"))
+                x = z3.Select(arr.terms[-1], i, j)
+                return Val(KArr2(COMPLEX), [arr.terms[0], arr.terms[1], z3.Lambda([i, j], x * c.terms[0]), z3.Lambda([i, j], x * c.terms[1])])
+            raise OutOfSubset("array %s complex" % op)
+
+        def cx(v):
+            if isinstance(v.kind, KComplex):
+                return v.terms[0], v.terms[1]
+            nan, x = to_float(v)
+            on_check("complex-arithmetic-on-NaN", not_(nan))
+            return x, z3.RealVal(0)
+        (ar, ai), (br, bi) = cx(a), cx(b)
+        if op == "+":
+            return Val(COMPLEX, [ar + br, ai + bi])
+        if op == "-":
+            return Val(COMPLEX, [ar - br, ai - bi])
+        if op == "*":
+            return Val(COMPLEX, [ar * br - ai * bi, ar * bi + ai * br])
+        raise OutOfSubset("complex operator " + op)
     if not (is_num(a) and is_num(b)):
         raise OutOfSubset("arithmetic %s on %r, %r" % (op, a.kind, b.kind))
     if is_intlike(a) and is_intlike(b) and op != "/":
@@ -433,6 +456,15 @@ def compare(op, a, b):
             return a.terms[0] == b.terms[0]
         if op == "!=":
             return a.terms[0] != b.terms[0]
+    if (isinstance(a.kind, KComplex) or isinstance(b.kind, KComplex)) and op in ("==", "!="):
+        def cx(v):
+            if isinstance(v.kind, KComplex):
+                return v.terms[0], v.terms[1]
+            nan, x = to_float(v)
+            return x, z3.RealVal(0)
+        (ar, ai), (br, bi) = cx(a), cx(b)
+        e = and_(ar == br, ai == bi)
+        return e if op == "==" else not_(e)
     if isinstance(a.kind, KTuple) and isinstance(b.kind, KTuple) and op in ("==", "!="):
         ia, ib = tuple_items(a), tuple_items(b)
         if len(ia) != len(ib):
